@@ -433,8 +433,21 @@ func (c *Client) Connect(conn net.Conn) error {
 	}()
 
 	if c.ver() > Version1_0_1 {
-		if err := c.negotiate(); err != nil {
+		// Negotiation must also end if the connection fails meanwhile:
+		// without a timeout, nothing else would cancel its pending request.
+		// Returning closes the Client (deferred), which releases negotiate's send
+		// and every caller waiting for the connection to become ready.
+		negotiated := make(chan error, 1)
+		go func() { negotiated <- c.negotiate() }()
+		select {
+		case err := <-negotiated:
+			if err != nil {
+				return err
+			}
+		case err := <-errs:
 			return err
+		case <-c.done:
+			return ErrClientClosed
 		}
 	}
 
